@@ -8,7 +8,7 @@ export CARGO_TARGET_DIR=/repo/target
 cd $wt || exit 2
 git checkout -q --detach $(git -C /repo rev-parse HEAD) 2>/dev/null; git checkout -q -- . ; git clean -fdq -- src tests
 cp /repo/Cargo.lock $wt/ 2>/dev/null
-cmd=$(python3 -c "import json;print(json.load(open('$d/meta.json')).get('demo_cmd',''))")
+cmd=$(python3 -c "import json,re;print(re.sub(r'CARGO_TARGET_DIR=\S+\s*','',json.load(open('$d/meta.json')).get('demo_cmd','')))")
 res() { python3 - "$@" <<'P'
 import json,sys
 out,key,val=sys.argv[1],sys.argv[2],sys.argv[3]
